@@ -88,6 +88,8 @@ pub struct Script {
     pub init: MachineInitStrategy,
     /// (breakpoints in force, call)
     pub calls: Vec<(Vec<Bp>, Call)>,
+    /// initial value of the public instruction counter
+    pub start_count: u64,
 }
 
 #[derive(Clone, Copy, Debug, PartialEq, Eq)]
@@ -150,7 +152,16 @@ pub fn decode(tape: &[u32]) -> Script {
         };
         calls.push((bps, call));
     }
-    Script { prog, real, init, calls }
+    // (read after everything else, so that tapes recorded before these two options existed decode as before)
+    let start_count = if t.chance(1, 8) { u64::MAX - t.pick(120) as u64 } else { 0 };
+    if t.chance(1, 4) {
+        // an "unlimited" limit on one of the run_with_limit calls
+        let k = t.pick(calls.len());
+        if let Call::RunLimit(n) = &mut calls[k].1 {
+            *n = u64::MAX - t.pick(4) as u64;
+        }
+    }
+    Script { prog, real, init, calls, start_count }
 }
 
 fn err_kind(r: &Result<(), SimErr>) -> String {
@@ -314,13 +325,30 @@ fn diff(a: &mut Rig, b: &mut Rig) -> Option<String> {
     None
 }
 
+/// A machine whose public instruction counter starts at `start` (usually 0; sometimes just below u64::MAX, so that it wraps during the script).
+fn mk(spec: &MachineSpec, start: u64) -> Rig {
+    let mut r = build_rig(spec);
+    r.sim.instructions_run = start;
+    r
+}
+
 pub fn check(tape: &[u32], st: &mut Stats) -> Result<(), String> {
-    let s = decode(tape);
+    check_script(&decode(tape), false, st)
+}
+
+/// `strict`: listed known findings are not excluded (replay of a saved case).
+pub fn check_script(s: &Script, strict: bool, st: &mut Stats) -> Result<(), String> {
+    if s.start_count != 0 {
+        st.class("instruction-counter-starts-near-u64-max");
+    }
+    if s.calls.iter().any(|(_, c)| matches!(c, Call::RunLimit(n) if *n > u64::MAX - 100)) {
+        st.class("run_with_limit-near-u64-max");
+    }
     let mut spec = spec_for_prog(&s.prog, s.real, false, s.init);
     // runaway protection for the API-driven simulator: the fuse device raises an external interrupt
     spec.fuse = std::env::var("LC3V_C13_FUSE").ok().and_then(|s| s.parse().ok()).unwrap_or(2_000_000);
-    let mut a = build_rig(&spec);
-    let mut b = build_rig(&spec);
+    let mut a = mk(&spec, s.start_count);
+    let mut b = mk(&spec, s.start_count);
     let mut budget = 300_000u64;
     let mut pauses = 0;
     let mut finished = false;
@@ -342,7 +370,7 @@ pub fn check(tape: &[u32], st: &mut Stats) -> Result<(), String> {
         st.class(&format!("call:{}", format!("{call:?}").split('(').next().unwrap()));
         if let Call::RunClearMcr(_) = call {
             // at most one more instruction after the MCR is cleared: either reference variant is accepted
-            let mut b0 = build_rig(&spec);
+            let mut b0 = mk(&spec, s.start_count);
             let mut bud0 = 300_000u64;
             // bring b0 to b's state by replaying the earlier calls
             for (bp2, c2) in &s.calls[..i] {
@@ -370,7 +398,7 @@ pub fn check(tape: &[u32], st: &mut Stats) -> Result<(), String> {
         let (rb, pause) = ref_call(&mut b.sim, s.real, bps_eff, call, false, &mut budget);
         if !matches!(pause, Pause::McrOff | Pause::Halt | Pause::Error) && step_in_cleared_mcr(&b.sim, b.sim.pc.wrapping_sub(1)) {
             st.class("call-ended-right-after-mcr-clear");
-            if known("C13", SIG_STEPIN_MCR) {
+            if !strict && known("C13", SIG_STEPIN_MCR) {
                 st.excluded_known += 1;
                 return Ok(());
             }
@@ -405,7 +433,7 @@ pub fn check(tape: &[u32], st: &mut Stats) -> Result<(), String> {
     }
     // segmented execution == one unbroken run
     if !s.calls.iter().any(|(_, c)| matches!(c, Call::RunClearMcr(_))) {
-        let mut c = build_rig(&spec);
+        let mut c = mk(&spec, s.start_count);
         a.sim.breakpoints.clear();
         let ra = if finished { Ok(()) } else { a.sim.run_with_limit(300_000) };
         let rc = c.sim.run_with_limit(300_000);
@@ -429,7 +457,7 @@ pub fn check(tape: &[u32], st: &mut Stats) -> Result<(), String> {
         st.class("segmented-vs-unbroken");
     }
     if pauses >= 2 && (s.prog.info.calls > 0 || s.prog.info.traps > 0) {
-        st.nontrivial(tape);
+        st.nontrivial(&script_to_json(s).to_string());
         if st.want_sample() {
             st.sample(json!({"program": describe_prog(&s.prog), "real_traps": s.real, "calls": s.calls.iter().map(|(b, c)| format!("{c:?} with {b:?}")).collect::<Vec<_>>()}));
         }
@@ -461,25 +489,116 @@ fn pause_matches(a: &Simulator, p: Pause) -> bool {
     }
 }
 
+fn cmp_json(c: &Cmp) -> Value {
+    match c {
+        Cmp::Never => json!(["never", 0]),
+        Cmp::Lt(v) => json!(["lt", v]),
+        Cmp::Eq(v) => json!(["eq", v]),
+        Cmp::Le(v) => json!(["le", v]),
+        Cmp::Gt(v) => json!(["gt", v]),
+        Cmp::Ne(v) => json!(["ne", v]),
+        Cmp::Ge(v) => json!(["ge", v]),
+        Cmp::Always => json!(["always", 0]),
+    }
+}
+fn cmp_from(v: &Value) -> Result<Cmp, String> {
+    let x = v[1].as_u64().unwrap_or(0) as u16;
+    Ok(match v[0].as_str().ok_or("bad comparator")? {
+        "never" => Cmp::Never,
+        "lt" => Cmp::Lt(x),
+        "eq" => Cmp::Eq(x),
+        "le" => Cmp::Le(x),
+        "gt" => Cmp::Gt(x),
+        "ne" => Cmp::Ne(x),
+        "ge" => Cmp::Ge(x),
+        "always" => Cmp::Always,
+        o => return Err(format!("unknown comparator {o}")),
+    })
+}
+
+/// Stable (generator-independent) form of a script: the replay payload.
+pub fn script_to_json(s: &Script) -> Value {
+    json!({
+        "origin": s.prog.origin, "words": s.prog.words, "kbd": s.prog.kbd, "subs": s.prog.subs,
+        "has_calls": s.prog.info.calls, "has_traps": s.prog.info.traps,
+        "real": s.real, "start_count": s.start_count,
+        "calls": s.calls.iter().map(|(b, c)| json!({
+            "bps": b.iter().map(|bp| match bp {
+                Bp::Pc(a) => json!({"pc": a}),
+                Bp::Reg(r, c) => json!({"reg": r, "cmp": cmp_json(c)}),
+                Bp::Mem(a, c) => json!({"mem": a, "cmp": cmp_json(c)}),
+            }).collect::<Vec<_>>(),
+            "call": match c {
+                Call::Run => json!(["run", 0]),
+                Call::RunLimit(n) => json!(["run_with_limit", n]),
+                Call::RunWhileCount(n) => json!(["run_while_count", n]),
+                Call::StepOver => json!(["step_over", 0]),
+                Call::StepOut => json!(["step_out", 0]),
+                Call::StepIn => json!(["step_in", 0]),
+                Call::RunClearMcr(n) => json!(["run_clear_mcr", n]),
+            },
+        })).collect::<Vec<_>>(),
+    })
+}
+
+pub fn script_from_json(v: &Value) -> Result<Script, String> {
+    let words: Vec<u16> = serde_json::from_value(v["words"].clone()).map_err(|e| e.to_string())?;
+    let kbd: Vec<u8> = serde_json::from_value(v["kbd"].clone()).map_err(|e| e.to_string())?;
+    let subs: Vec<u16> = serde_json::from_value(v["subs"].clone()).unwrap_or_default();
+    let mut info = crate::gen::exec::ExecInfo::default();
+    info.calls = v["has_calls"].as_u64().unwrap_or(0) as usize;
+    info.traps = v["has_traps"].as_u64().unwrap_or(0) as usize;
+    let prog = ExecProg { origin: v["origin"].as_u64().unwrap_or(0x3000) as u16, words, kbd, ending: crate::gen::exec::Ending::Halt, info, subs, listing: vec![] };
+    let mut calls = vec![];
+    for c in v["calls"].as_array().ok_or("calls missing")? {
+        let mut bps = vec![];
+        for b in c["bps"].as_array().cloned().unwrap_or_default() {
+            bps.push(if let Some(a) = b.get("pc") {
+                Bp::Pc(a.as_u64().unwrap_or(0) as u16)
+            } else if let Some(r) = b.get("reg") {
+                Bp::Reg(r.as_u64().unwrap_or(0) as usize, cmp_from(&b["cmp"])?)
+            } else {
+                Bp::Mem(b["mem"].as_u64().unwrap_or(0) as u16, cmp_from(&b["cmp"])?)
+            });
+        }
+        let n = c["call"][1].as_u64().unwrap_or(0);
+        let call = match c["call"][0].as_str().ok_or("bad call")? {
+            "run" => Call::Run,
+            "run_with_limit" => Call::RunLimit(n),
+            "run_while_count" => Call::RunWhileCount(n),
+            "step_over" => Call::StepOver,
+            "step_out" => Call::StepOut,
+            "step_in" => Call::StepIn,
+            "run_clear_mcr" => Call::RunClearMcr(n),
+            o => return Err(format!("unknown call {o}")),
+        };
+        calls.push((bps, call));
+    }
+    Ok(Script { prog, real: v["real"].as_bool().unwrap_or(false), init: MachineInitStrategy::Known { value: 0 }, calls, start_count: v["start_count"].as_u64().unwrap_or(0) })
+}
+
 pub fn describe(tape: &[u32]) -> Value {
     let s = decode(tape);
-    json!({"program": describe_prog(&s.prog), "real_traps": s.real, "calls": s.calls.iter().map(|(b, c)| format!("{c:?} with {b:?}")).collect::<Vec<_>>()})
+    json!({"program": describe_prog(&s.prog), "real_traps": s.real, "calls": s.calls.iter().map(|(b, c)| format!("{c:?} with {b:?}")).collect::<Vec<_>>(), "script": script_to_json(&s)})
 }
 
 pub fn run(ctx: &Ctx) -> Outcome {
     let mut out = Outcome::new(
         "generated programs (calls, traps, loops; real and virtual traps) driven by random scripts of run / run_with_limit / run_while / step_over / step_out / step_in with breakpoint sets (PC, register and memory comparators incl. Always/Never) edited between calls \
          and, as last call, a tripwire that clears the MCR at a chosen instruction count; a twin simulator is driven only by step_in by a reference loop implementing the documented stop conditions; after every call: result kind, R0-R7, PC, PSR, instruction count, frame depth, keyboard, display, all memory, hit_halt/hit_breakpoint; \
-         finally the segmented execution is resumed to completion and compared with one unbroken run; MCR clear accepts 'zero more' or 'one more' instruction; non-trivial = >=2 pauses and the program has a call or trap; distinct by tape",
+         finally the segmented execution is resumed to completion and compared with one unbroken run; MCR clear accepts 'zero more' or 'one more' instruction; non-trivial = >=2 pauses and the program has a call or trap; distinct by script",
     );
     let cfg = TapeCfg::new(ctx, 1500, 60_000, 700);
     out.shards = cfg.shards;
     out.absorb(tape_search(ctx, "main", &cfg, check, describe));
-    out.essential = ["call:Run", "call:RunLimit", "call:RunWhileCount", "call:StepOver", "call:StepOut", "call:StepIn", "call:RunClearMcr", "pause:Halt", "pause:McrOff", "pause:Breakpoint", "pause:Tripwire", "pause:Error", "segmented-vs-unbroken"].iter().map(|s| s.to_string()).collect();
+    out.essential = ["call:Run", "call:RunLimit", "call:RunWhileCount", "call:StepOver", "call:StepOut", "call:StepIn", "call:RunClearMcr", "pause:Halt", "pause:McrOff", "pause:Breakpoint", "pause:Tripwire", "pause:Error", "segmented-vs-unbroken", "instruction-counter-starts-near-u64-max", "run_with_limit-near-u64-max"].iter().map(|s| s.to_string()).collect();
     out
 }
 
 pub fn replay(_ctx: &Ctx, case: &Value, st: &mut Stats) -> Result<(), String> {
+    if case.get("script").is_some() {
+        return check_script(&script_from_json(&case["script"])?, true, st);
+    }
     let tape: Vec<u32> = serde_json::from_value(case["tape"].clone()).map_err(|e| e.to_string())?;
-    check(&tape, st)
+    check_script(&decode(&tape), true, st)
 }
